@@ -21,6 +21,7 @@ from pySDC.implementations.controller_classes.controller_nonMPI import controlle
 from pySDC.implementations.datatype_classes.mesh import mesh
 
 PID = 'C06'
+BOUNDS = {'quick': dict(L1_steps_per_block='1..4', L1_steps='<=10', histories='NP<=4, <=5 steps, <=2 restart requests when the step size shrinks', L2='witness replay only'), 'thorough': dict(L1_steps_per_block='1..8', L1_steps='<=12', L2='N<=3 accepted steps, NP<=2, 0<=t0<=2^20, 2^-10<=dt<=2^10, caps 600-1200 s')}
 G = z3.Function('G', z3.RealSort(), z3.RealSort(), z3.RealSort())
 EPS10 = Fraction(10 * float(np.finfo(float).eps))
 LOG = []
